@@ -44,5 +44,4 @@ fn get_dependencies_from_type(
             _ => {}
         },
     };
-    seen.remove(&tp.id().to_string());
 }
